@@ -230,6 +230,9 @@ func nilCollapse(n Node) bool {
 
 func runBridge(c BCase) *h.Result {
 	res := &h.Result{Classes: []string{"go:" + c.V.T}}
+	if hasRows(c.V) {
+		res.Classes = append(res.Classes, "go:rows")
+	}
 	res.NonTrivial = c.V.Depth() >= 1 || !(c.V.T == "i64" || c.V.T == "f64" || c.V.T == "str")
 	switch {
 	case nilCollapse(c.V) && h.ExclOn("bridge-nil-collapse"):
@@ -262,6 +265,10 @@ var f64Table = []string{"0", "-0", "1", "-1", "0.1", "1.5", "1e300", "-1e-300", 
 var f32Table = []string{"0", "-0", "1", "0.1", "1.5", "3.4028235e38", "1e-45", "16777217", "+Inf", "-Inf", "0.33333334"}
 
 func genBridgeNode(rt *rapid.T, depth int) Node {
+	if depth > 0 && rapid.IntRange(0, 7).Draw(rt, "brows") == 0 {
+		// rows with a string head: as Lisp data one cons cell away from the pairs that stand for a map
+		return genRows(rt, func() Node { return genBridgeNode(rt, depth-1) }, keyTable)
+	}
 	k := rapid.IntRange(0, 13).Draw(rt, "bk")
 	if depth <= 0 && k >= 12 {
 		k = rapid.IntRange(0, 11).Draw(rt, "bk2")
@@ -403,6 +410,21 @@ func enumRT(t *testing.T) {
 				}
 			}
 		}
+		// arrays of rows with a string head (as Lisp data one cons cell away from a map), alone, with a stranger, in a map
+		for ki, k := range keyTable {
+			rows := Node{T: "arr", A: []Node{{T: "arr", A: []Node{{T: "str", S: k}, {T: "int", S: "1"}}}, {T: "arr", A: []Node{{T: "str", S: "z"}, {T: "arr", A: []Node{{T: "str", S: k}}}}}}}
+			mixed := Node{T: "arr", A: []Node{rows.A[0], {T: "arr", A: []Node{{T: "str", S: k}}}, rows.A[1]}}
+			for di, doc := range []Node{rows, mixed, {T: "obj", K: []string{"rows", "map"}, A: []Node{rows, {T: "obj", K: []string{k}, A: []Node{rows}}}}} {
+				for i := (ki + di) % 6; i < len(wopts); i += 6 {
+					c := RTCase{Doc: doc, Via: vias[(i+di)%4], W: wopts[i], Native: []string{"make-bag", "init-set", "bag-set", "send-set"}[(i+ki)%4]}
+					c.W.Send = i%2 == 1
+					c.Style.Esc = i % 3
+					if !yield(c) {
+						return
+					}
+				}
+			}
+		}
 		for _, k := range keyTable {
 			for i, wo := range wopts {
 				c := RTCase{Doc: Node{T: "obj", K: []string{k, "z"}, A: []Node{{T: "int", S: "1"}, {T: "obj", K: []string{k}, A: []Node{{T: "str", S: k}}}}}, Via: "make-bag", W: wo, Native: "make-bag"}
@@ -415,10 +437,11 @@ func enumRT(t *testing.T) {
 	})
 }
 
-// the document of the path grid: maps and arrays to depth 3, a null, an empty map and array.
+// the document of the path grid: maps and arrays, a null, an empty map, and at b[1] an array of rows with a string head.
 var gridDoc = Node{T: "obj", K: []string{"a", "b", "c", "d"}, A: []Node{
 	{T: "obj", K: []string{"a", "b"}, A: []Node{{T: "int", S: "1"}, {T: "arr", A: []Node{{T: "int", S: "2"}, {T: "obj", K: []string{"a"}, A: []Node{{T: "int", S: "3"}}}, {T: "null"}}}}},
-	{T: "arr", A: []Node{{T: "obj", K: []string{"a", "b"}, A: []Node{{T: "str", S: "x"}, {T: "false"}}}, {T: "arr", A: []Node{{T: "int", S: "4"}, {T: "int", S: "5"}}}, {T: "float", S: "1.5"}}},
+	{T: "arr", A: []Node{{T: "obj", K: []string{"a", "b"}, A: []Node{{T: "str", S: "x"}, {T: "false"}}},
+		{T: "arr", A: []Node{{T: "arr", A: []Node{{T: "str", S: "a"}, {T: "int", S: "4"}}}, {T: "arr", A: []Node{{T: "str", S: ""}, {T: "arr", A: []Node{{T: "int", S: "5"}}}}}}}, {T: "float", S: "1.5"}}},
 	{T: "null"},
 	{T: "obj"},
 }}
@@ -464,7 +487,7 @@ func enumPaths(t *testing.T) {
 	paths = kept
 	scalar := Node{T: "int", S: "9"}
 	container := Node{T: "obj", K: []string{"n"}, A: []Node{{T: "arr", A: []Node{{T: "int", S: "7"}}}}}
-	h.Note("paths-grid: %d paths of up to 3 fragments over %d fragments x 9 operations on one document", len(paths), len(alphabet))
+	h.Note("paths-grid: %d paths of up to 3 fragments over %d fragments x 11 operations on one document", len(paths), len(alphabet))
 	h.Enumerate(t, pathsGrid, func(yield func(PCase) bool) {
 		for pi, p := range paths {
 			ps := refpath.PStyle{Root: pi%2 == 0, Bracket: pi%3 == 0}
@@ -475,10 +498,10 @@ func enumPaths(t *testing.T) {
 				{Kind: "set", Path: p, PS: ps, Val: &scalar}, {Kind: "set", Path: p, PS: ps, Val: &container, Send: true}, {Kind: "set", Path: p, PS: ps, Val: &container, AsBag: true},
 			}
 			_ = last
-			ops = append(ops, Op{Kind: "remove", Path: p, PS: ps})
+			ops = append(ops, Op{Kind: "remove", Path: p, PS: ps}, Op{Kind: "modify", Path: p, PS: ps}, Op{Kind: "modify", Path: p, PS: ps, AsBag: true, Send: true})
 			for _, o := range ops {
 				c := PCase{Doc: gridDoc, Ops: []Op{o}}
-				if o.Kind == "set" || o.Kind == "remove" {
+				if o.Kind == "set" || o.Kind == "remove" || o.Kind == "modify" {
 					// look at the result through the same path and at four other places
 					c.Ops = append(c.Ops, Op{Kind: "has", Path: p, PS: ps}, Op{Kind: "get", Path: p, PS: ps, AsBag: true},
 						Op{Kind: "get", Path: []Frag{{K: "key", S: "a"}, {K: "key", S: "a"}}}, Op{Kind: "get", Path: []Frag{{K: "key", S: "b"}, {K: "idx", I: 2}}},
@@ -490,6 +513,37 @@ func enumPaths(t *testing.T) {
 			}
 		}
 	})
+}
+
+// rowShapes: arrays of rows with a string head and their neighbours - heads "a", "", "k k"; rows of
+// 1, 2 and 3 elements; 1 and 2 rows; seven kinds of second element; with one element that is no row
+// in front, between or behind; a map with the same entries beside it.
+func rowShapes() []Node {
+	str := func(s string) Node { return Node{T: "str", S: s} }
+	seconds := []Node{{T: "i64", S: "1"}, {T: "null"}, str("v"), {T: "true"}, {T: "f64", S: "7.5"},
+		{T: "arr", A: []Node{{T: "i64", S: "2"}}}, {T: "obj", K: []string{"x"}, A: []Node{{T: "i64", S: "3"}}},
+		{T: "arr", A: []Node{{T: "arr", A: []Node{str("in"), {T: "i64", S: "4"}}}}}}
+	var out []Node
+	for _, head := range []string{"a", "", "k k"} {
+		for _, sec := range seconds {
+			row := func(l int, h string) Node {
+				r := Node{T: "arr", A: []Node{str(h)}}
+				for len(r.A) < l {
+					r.A = append(r.A, sec)
+				}
+				return r
+			}
+			for l := 1; l <= 3; l++ {
+				out = append(out, Node{T: "arr", A: []Node{row(l, head)}}, Node{T: "arr", A: []Node{row(l, head), row(l, "z")}})
+			}
+			two := []Node{row(2, head), row(2, "z")}
+			for _, stranger := range []Node{{T: "i64", S: "0"}, str("s"), row(1, head), row(3, head), {T: "arr"}, {T: "arr", A: []Node{{T: "i64", S: "1"}, sec}}} {
+				out = append(out, Node{T: "arr", A: []Node{stranger, two[0], two[1]}}, Node{T: "arr", A: []Node{two[0], stranger, two[1]}}, Node{T: "arr", A: []Node{two[0], two[1], stranger}})
+			}
+			out = append(out, Node{T: "obj", K: []string{"rows", "map"}, A: []Node{{T: "arr", A: two}, {T: "obj", K: []string{head, "z"}, A: []Node{sec, sec}}}})
+		}
+	}
+	return out
 }
 
 func enumBridge(t *testing.T) {
@@ -537,6 +591,11 @@ func enumBridge(t *testing.T) {
 			}
 		}
 		for _, n := range []Node{{T: "null"}, {T: "true"}, {T: "false"}, {T: "arr"}, {T: "obj"}} {
+			if !emit(n) {
+				return
+			}
+		}
+		for _, n := range rowShapes() {
 			if !emit(n) {
 				return
 			}
